@@ -19,10 +19,11 @@ class Query:
         self.meta = meta or {}
         self.nontrivial = nontrivial
         self.witness = witness
+        self.get_terms = []
         self.status = None
         self.model = {}
         self.secs = 0.0
-        self.solver = "z3"
+        self.solver = "portfolio"
         self.witness_status = None
 
     def script(self, asserts=None):
@@ -32,7 +33,10 @@ class Query:
             if ax:
                 self.asserts = list(self.asserts) + ax
         vs = T.free_vars([a for a in (asserts or self.asserts) if T.is_t(a)])
-        return r.script(asserts or self.asserts, get=vs if vs else None), r
+        vs = list(vs) + [g for g in getattr(self, "get_terms", []) if T.is_t(g)]
+        sc = r.script(asserts or self.asserts, get=vs if vs else None)
+        self.term_names = {g.id: r.names.get(g.id) for g in getattr(self, "get_terms", []) if T.is_t(g)}
+        return sc, r
 
 
 def _run(q):
